@@ -3,6 +3,7 @@
    `C39 agrees  ct j next now rnd obs ulp`      → `ok exact|boundary|bad`   (Spec.agrees)
    `C39 spec    ct j next now obs ulp`          → `ok [clause,…]`           (Spec.stepViolations)
    `C39 machine ct now [kind,…] [op,…]`         → `ok [[[ev,…],running,[deadline,…],[inflight,…]],…]`
+                op = [start] | [stop] | [fire] | [sleep,d] | [complete,i,T|F] | [iter,late,T|F,[[stop]|[start]|[block,d],…]]
    `C39 trace   [op,…] [[ev,…],…]`              → `ok [clause,…]`           (Spec.traceViolations)
    `C39 ctor    period obs|~ halfulp`           → `ok [n,d]|~ T|F`          (Model.ctor, Spec.ctorAgrees); period = [ms,[n,d]] | [td,us]
    `C39 ctorspec period obs|~`                  → `ok [clause,…]`           (Spec.ctorViolations)
@@ -36,8 +37,17 @@ def decKind : V → Option Kind
   | .atom "coro" => some .coro
   | _ => none
 
+def decAct (v : V) : Option Act := do
+  match ← v.list? with
+  | [.atom "stop"] => pure .stop
+  | [.atom "start"] => pure .start
+  | [.atom "block", d] => pure (.block (← decRat d))
+  | _ => none
+
 def decOp (v : V) : Option Op := do
   match ← v.list? with
+  | [.atom "iter", late, before, acts] =>
+    pure (.iter (← decRat late) (← before.bool?) (← (← acts.list?).mapM decAct))
   | [.atom "start"] => pure .start
   | [.atom "stop"] => pure .stop
   | [.atom "fire"] => pure .fire
